@@ -243,14 +243,16 @@ def build(E):
         lv = z3.If(cap0 < raw, cap0, raw)
         retry = old.getf(cfg, "retry_after").z
         retry_s = z3.If(retry >= 0, z3.IntToStr(retry), z3.Concat(z3.StringVal("-"), z3.IntToStr(-retry)))
+        wit = {"had": had, "tokens0": z3.Select(was["tokens"], k), "last0": z3.Select(was["last_update"], k),
+               "cap0": z3.Select(was["capacity"], k), "rate0": z3.Select(was["refill_rate"], k), "now": now}
         if isinstance(resp, VNoneT):
-            return z3.And(allow.z, lv >= 1, z3.Select(new["has"], k), z3.Select(new["tokens"], k) == lv - 1)
+            return z3.And(allow.z, lv >= 1, z3.Select(new["has"], k), z3.Select(new["tokens"], k) == lv - 1), wit
         if isinstance(resp, VStr):
             return z3.And(z3.Not(allow.z), lv < 1,
                           z3.PrefixOf(z3.StringVal("44 "), resp.z), z3.Contains(resp.z, retry_s),
                           z3.SuffixOf(z3.StringVal("\r\n"), resp.z),
                           z3.Not(z3.Contains(z3.SubString(resp.z, 0, z3.Length(resp.z) - 2), z3.StringVal("\n"))),
-                          z3.Select(new["has"], k), z3.Select(new["tokens"], k) == lv)
+                          z3.Select(new["has"], k), z3.Select(new["tokens"], k) == lv), wit
         return z3.BoolVal(False)
 
     def pr_valid(ctx, old, args, outcome):
